@@ -3,7 +3,7 @@
  * Oracle: UTMUPS.hpp: within one zone a change of hemisphere convention shifts the northing by exactly 10000 km;
  * UPS coordinates cannot change hemisphere; a change of zone goes through geographic coordinates (Reverse then Forward
  * with the requested zone, MATCH = -3 meaning "keep the input zone").  Reverse/Forward are replaced by their contracts.  -- C04, C13 */
-/*@ uses Math_AngNormalize TransverseMercator_Forward PolarStereographic_Forward TransverseMercator_Reverse PolarStereographic_Reverse */
+/*@ uses UTMUPS_Forward Math_AngNormalize TransverseMercator_Forward PolarStereographic_Forward TransverseMercator_Reverse PolarStereographic_Reverse */
 /*@ ghost */
 #define UT_SAME (VERIF_SAME_D(*xout, __CPROVER_old(*xout)) && VERIF_SAME_D(*yout, __CPROVER_old(*yout)) && *zone == __CPROVER_old(*zone))
 /*@ clause pre.not_thrown src=call-site */
@@ -13,7 +13,8 @@ __CPROVER_assigns(*xout, *yout, *zone, verif_thrown, g_AngNormalize_arg, g_AngNo
                   g_TM_x, g_TM_y, g_TM_gamma, g_TM_k, g_TM_lon0, g_TM_lat, g_TM_lon, g_TM_calls,
                   g_PS_x, g_PS_y, g_PS_gamma, g_PS_k, g_PS_calls, g_PS_northp,
                   g_TMR_lon0, g_TMR_x, g_TMR_y, g_TMR_lat, g_TMR_lon, g_TMR_gamma, g_TMR_k, g_TMR_calls,
-                  g_PSR_x, g_PSR_y, g_PSR_lat, g_PSR_lon, g_PSR_gamma, g_PSR_k, g_PSR_calls, g_PSR_northp)
+                  g_PSR_x, g_PSR_y, g_PSR_lat, g_PSR_lon, g_PSR_gamma, g_PSR_k, g_PSR_calls, g_PSR_northp,
+                  g_UF_zone, g_UF_northp, g_UF_x, g_UF_y, g_UF_setzone)
 /*@ clause post.no_other_exception src=property props=C13 */
 __CPROVER_ensures(!verif_thrown_other)
 /*@ clause post.throw_unchanged src=property props=C04,C13 */
@@ -26,3 +27,9 @@ __CPROVER_ensures(zonein != zoneout ||
                                      g_TM_calls == 0 && g_PS_calls == 0 && g_TMR_calls == 0 && g_PSR_calls == 0))))
 /*@ clause post.ups_hemisphere src=header props=C04 */
 __CPROVER_ensures(verif_thrown || *zone != 0 || zonein == -4 || isnan(xin) || isnan(yin) || zonein != zoneout || northpin == northpout)
+/*@ clause post.other_zone src=header props=C04 */
+/* a change of zone goes through geographic coordinates: the result is what Forward returned for the requested zone
+   (MATCH = -3 keeps the input zone), with the northing moved to the requested hemisphere convention by exactly 10000 km */
+__CPROVER_ensures(zonein == zoneout || verif_thrown ||
+                  (g_UF_setzone == (zoneout == -3 ? zonein : zoneout) && *zone == g_UF_zone && VERIF_SAME_D(*xout, g_UF_x) &&
+                   VERIF_SAME_D(*yout, (g_UF_northp != 0) == (northpout != 0) ? g_UF_y : g_UF_y + (northpout ? -10000000.0 : 10000000.0))))
